@@ -43,8 +43,10 @@ theorem C05_facts_ok :
     PlzVerif.Generated.C04.sk_SyncParsePackage = Facts.expected_sk_SyncParsePackage ∧
     PlzVerif.Generated.C04.sk_WaitForPackage = Facts.expected_sk_WaitForPackage ∧
     PlzVerif.Generated.C04.sk_handleOutput = Facts.expected_sk_handleOutput ∧
-    PlzVerif.Generated.C04.initFacts = Facts.expectedInitFacts :=
-  ⟨rfl, rfl, rfl, rfl, rfl, rfl, rfl, rfl, rfl, rfl, rfl, rfl, rfl⟩
+    PlzVerif.Generated.C04.initFacts = Facts.expectedInitFacts ∧
+    -- the dependency wait loop: wait first, then the DependencyFailed test, no state test that passes a dependency over
+    PlzVerif.Generated.C04.waitLoop = Facts.expectedWaitLoop ∧ Facts.skipOf PlzVerif.Generated.C04.waitSkip = none :=
+  ⟨rfl, rfl, rfl, rfl, rfl, rfl, rfl, rfl, rfl, rfl, rfl, rfl, rfl, rfl, rfl⟩
 
 /-- **Progress measure**: every step of the scheduler either leaves the state unchanged (a redundant activation
     or `Stop`) or strictly decreases `mu` — whatever the graph (cycles included), the failures, the number of
